@@ -187,7 +187,7 @@ var lastProgress atomic.Int64
 var (
 	wdDeadline atomic.Int64 // unix nanos; 0 = disarmed
 	wdCurrent  atomic.Value // description of the running call (Ev)
-	wdLimit    = 5 * time.Second
+	wdLimit    = 10 * time.Second
 )
 
 func startWatchdog() {
@@ -536,6 +536,36 @@ func (z *serializer) walk(v reflect.Value, depth int) {
 			ents = append(ents, kv{string(zk.buf), it.Key(), it.Value()})
 		}
 		sort.SliceStable(ents, func(i, j int) bool { return ents[i].k < ents[j].k })
+		// keys with the same text (NaN keys are different keys): order those entries by the text of their values
+		for i := 0; i < len(ents); {
+			k := i + 1
+			for k < len(ents) && ents[k].k == ents[i].k {
+				k++
+			}
+			if k-i > 1 {
+				vt := make([]string, k-i)
+				for t := i; t < k; t++ {
+					scratch := make(map[uintptr]int, len(z.ids))
+					for p, id := range z.ids {
+						scratch[p] = id
+					}
+					zv := &serializer{ids: scratch, mask: z.mask, spare: z.spare, nocap: z.nocap}
+					zv.walk(ents[t].elem, depth+1)
+					vt[t-i] = string(zv.buf)
+				}
+				grp := ents[i:k]
+				idx := make([]int, len(grp))
+				for t := range idx {
+					idx[t] = t
+				}
+				sort.SliceStable(idx, func(a, b int) bool { return vt[idx[a]] < vt[idx[b]] })
+				cp := append([]kv{}, grp...)
+				for t, o := range idx {
+					grp[t] = cp[o]
+				}
+			}
+			i = k
+		}
 		z.w("m{")
 		for i, e := range ents {
 			if i > 0 {
